@@ -25,6 +25,13 @@ CLAIMED = {
  "C19": ("rapid tracks round-tripped through encoder+decoder; generated/mutated record streams; native fuzzing",
          "Generated-input search: tracks over the whole 1970-2069 window (day/month/year/century boundaries, boundary angles, fractional seconds and altitudes) are encoded and decoded and compared at format resolution in rational arithmetic; line-structured streams with forged I records and B records at the announced length +-1, byte mutations and (thorough) coverage-guided fuzzing check totality and result structure under a CPU-time termination budget.",
          "Timestamps compared to 1e-6 s (float64 resolution of UnixNano/1e9); streams longer than bufio.Scanner's 64 KiB line limit are silently truncated by the decoder, which the property permits.", "DESIGN.md §4 C19"),
+
+ "C03": ("rapid geometry trees vs independent reference WKB/EWKB encoder; chunked readers, failing writers",
+         "Generated-input search with a differential oracle: Marshal output must equal, byte for byte, an independent encoder written from the ISO WKB / PostGIS EWKB formats (this is what exposes a symmetric encoder/decoder mistake), decoding must return the model after the three stated carve-outs, and the stream, hex and database/sql entry points are driven with generated reader splits, concatenations and writer fault positions.",
+         "Trusts internal/refwkb as the statement of the formats (type = id + 1000*dim; EWKB flag bits; SRID only where non-zero; empty point = canonical quiet NaNs; a collection's type word takes the dimension of its reported Layout()); readers never return (0, nil).", "DESIGN.md §4 C03"),
+ "C04": ("rapid structured mutations + count-field forgeries of reference encodings; native go fuzzing; TotalAlloc oracle",
+         "Generated-input search over byte strings: forged count fields at known offsets and levels (from the reference encoder's bookkeeping) must be rejected with exactly ErrGeometryTooLarge{Level,N,Limit}; every decode is checked for no panic, termination (CPU budget), well-formedness, canonical re-encoding, agreement of hex/Scan wrappers and a measured allocation bound; thorough adds coverage-guided fuzzing on all cores.",
+         "Allocation bound constants (4096 + 128/byte + 256/limit unit) have >= 10x margin over measurements; with a level's limit disabled only inputs whose count fields are backed by remaining input are executed, as the property prescribes.", "DESIGN.md §4 C04"),
 }
 PENDING_REASON = "check not built yet in this session (planned, see DESIGN.md §4); not claimed until its harness package exists"
 
